@@ -58,9 +58,10 @@ def export_table(ctx):
                     fp.write("neq\t%s\t%d\t%d\t%s\t%d\t%s\n" %
                              (nr["net"], nr["n"], k + 1, t["q"], t["p"], t["c"]))
         for c in doc["cases"]:
-            fp.write("case\t%s\t%s\t%s\t%s\t%d\t%d\t%s\t%s\t%s\n" %
+            fp.write("case\t%s\t%s\t%s\t%s\t%d\t%d\t%s\t%s\t%s\t%s\t%s\n" %
                      (c["kind"], c["from"], c["via"], c["to"], c["n"],
-                      c["alias"], c["z0"], c["net"], c["mag"]))
+                      c["alias"], c["z0"], c["net"], c["mag"], c["pat"],
+                      c["shape"]))
     ctx.netparams_doc = doc
     return js, tsv
 
@@ -81,9 +82,9 @@ def _case_index_factory(keys):
 
 
 def _key(c):
-    return "%s:%s:%s:%s:%d:%d:%s:%s:%s" % (
+    return "%s:%s:%s:%s:%d:%d:%s:%s:%s:%s:%s" % (
         c["kind"], c["from"], c["via"], c["to"], c["n"], c["alias"], c["z0"],
-        c["net"], c["mag"])
+        c["net"], c["mag"], c["pat"], c["shape"])
 
 
 def run(ctx, exe, tier, seed, draws=None):
@@ -130,7 +131,7 @@ def run(ctx, exe, tier, seed, draws=None):
     ok = v["rc"] == 0 and "No error has been found" in v["out"]
     stats["tlc_generated"] = v["generated"]
     bad = [r for r in rows if r["failed"] > 0 or r["decided"] == 0
-           or r.get("pure", 1) != 1]
+           or r.get("pure", 1) != 1 or r.get("allWritten", 1) != 1]
     if not ok and not bad and not crashes:
         ctx.machinery_errors.append("NetParamsTrace rejected the result log "
                                     "although no case failed:\n" + v["out"][-2500:])
@@ -138,7 +139,8 @@ def run(ctx, exe, tier, seed, draws=None):
     # chain / n-vs-2 case it takes part in: report it once, at the source
     direct_bad = set()
     for r in bad:
-        if (r["failed"] > 0 or r.get("pure", 1) != 1) and r["kind"] in DIRECT:
+        if (r["failed"] > 0 or r.get("pure", 1) != 1
+                or r.get("allWritten", 1) != 1) and r["kind"] in DIRECT:
             direct_bad |= set(_members(r))
     for r in bad:
         key = r["case"].split(":", 2)[2]
@@ -146,7 +148,9 @@ def run(ctx, exe, tier, seed, draws=None):
         if r["decided"] == 0:
             ctx.machinery_errors.append("C04 case never decided: " + r["case"])
             continue
-        if r["failed"] == 0 and r.get("pure", 1) != 1:
+        if r["failed"] == 0 and r.get("allWritten", 1) != 1:
+            r = dict(r, what="allWritten", failed=r.get("unwritten", 1))
+        elif r["failed"] == 0 and r.get("pure", 1) != 1:
             r = dict(r, what="pure", failed=r.get("impure", 1))
         if r["kind"] not in DIRECT and \
                 direct_bad & set(_members(r)):
@@ -158,13 +162,18 @@ def run(ctx, exe, tier, seed, draws=None):
             sig += ":" + r["net"]
         if r.get("mag", "unit") != "unit":
             sig += ":" + r["mag"]
+        if r.get("pat", "-") != "-":
+            sig += ":z0=" + r["pat"]
+        if r.get("shape", "dense") != "dense":
+            sig += ":" + r["shape"]
         rp = ctx.save_replay("netparams-%s.json" % common.sig_hash(sig + r["z0"]), r)
         issues.append(vlib.Issue(
             {"C04"}, sig,
-            "%s (%s, network %s, n=%d, z0 class %s / magnitude %s, %s buffers): %d of %d decided draws "
+            "%s (%s, network %s, n=%d, z0 class %s%s / magnitude %s / input %s, %s buffers): %d of %d decided draws "
             "violate '%s' (worst residual 1e%d); case %s first bad draw %d"
             % (fn, r["kind"], r.get("net", "-"), r["n"], r["z0"],
-               r.get("mag", "unit"),
+               (" pattern " + r["pat"]) if r.get("pat", "-") != "-" else "",
+               r.get("mag", "unit"), r.get("shape", "dense"),
                "aliased" if r["alias"] else "separate", r["failed"],
                r["decided"], r["what"], r["lg"], key, r["firstBad"]),
             replay=rp, detail=r))
